@@ -573,3 +573,33 @@ Fixpoint run (db : dbfun) (t : track) (ops : list op) : track * list (res * list
       | _ => let '(t'', outs) := run db t' r in (t'', (rs, evs) :: outs)
       end
   end.
+
+(* ---------- get_commit_info (no transient substates) ---------- *)
+Inductive commit :=
+| CInsert (n p k size : N)
+| CUpdate (n p k size old_size : N)
+| CDelete (n p k old_size : N).
+
+Definition commit_of (db : dbfun) (n p k : N) (tv : tsv) : option commit :=
+  match tv with
+  | TNew v => Some (CInsert n p k (vsize v))
+  | TRoNone | TRoSome _ | TGarbage => None
+  | TRExW old (WUpdate x) => Some (CUpdate n p k (vsize x) (vsize old))
+  | TRExW old WDelete => Some (CDelete n p k (vsize old))
+  | TRNexW v => Some (CInsert n p k (vsize v))
+  | TWo w =>
+      (* the only place where the database is consulted: the old size of a blind write *)
+      match al_get k (db n p), w with
+      | Some o, WUpdate x => Some (CUpdate n p k (vsize x) (vsize o))
+      | Some o, WDelete => Some (CDelete n p k (vsize o))
+      | None, WUpdate x => Some (CInsert n p k (vsize x))
+      | None, WDelete => None
+      end
+  end.
+Fixpoint commit_subs (db : dbfun) (n p : N) (subs : list (key * tsv)) : list commit :=
+  match subs with
+  | [] => []
+  | (k, tv) :: r => match commit_of db n p k tv with Some c => c :: commit_subs db n p r | None => commit_subs db n p r end
+  end.
+Definition get_commit_info (db : dbfun) (t : track) : list commit :=
+  flat_map (fun e => flat_map (fun q => commit_subs db (fst e) (fst q) (ps_subs (snd q))) (tn_parts (snd e))) (t_nodes t).
